@@ -262,7 +262,7 @@ def verify_unit(name, spec_path, repo, build_dir, extra=None, do_canary=True, ti
         f.write(text)
     res.gen_path = gen
     res.props = u.props
-    res.regions = [{"item": r.name, "rules": r.rewrites_applied, "drift_tokens": r.drift,
+    res.regions = [{"item": r.name, "rules": r.rewrites_applied, "drift_tokens": r.drift, "locals_renamed_back": getattr(r, "renamed", {}),
                     "generated_lines": list(r.gen_lines)} for r in u.regions]
     res.drift = sum(r.drift for r in u.regions)
     for r in u.regions:
